@@ -1,2 +1,8 @@
 SPECIFICATION TSpec
+CONSTANTS
+  ClassLevelPropagate = FALSE
+  ParamResolve = FALSE
+  InitRestated = FALSE
+  OriginFromSuper = FALSE
+  AllowModifyBusy = FALSE
 CHECK_DEADLOCK FALSE
